@@ -94,6 +94,44 @@ def framework_cases():
     return out
 
 
+def flask1_cases():
+    """the Flask OAuth 1 integration on its cache hooks: a cache operation (get / set / delete) fails during a request — the failure surfaces and nothing redeemable is lost or kept twice"""
+    return [{"world": "flask1", "method": m, "nth": nth, "at": at, "cfg": {}, "ops": []} for at in ("initiate", "authorize", "exchange") for m in ("get", "set", "delete") for nth in (0, 1)]
+
+
+def impl_flask1(c):
+    import memserver as ms
+    from props import c12
+    S = lambda cl, ts, n: {"method": "HMAC-SHA1", "timestamp": str(c12.NOW0), "nonce": n, "signed_with": [c12.SECRETS[cl], ts], "client": cl}
+    w = c12.World1Flask(["HMAC-SHA1"])
+    ops = [dict({"op": "initiate", "callback": "oob", "callback_valid": False}, **S("ca", "", "f1")), {"op": "authorize", "token": "tmp1", "user": 1},
+           dict({"op": "exchange", "token": "tmp1", "verifier": "ver3"}, **S("ca", "tsec2", "f2"))]
+    idx = {"initiate": 0, "authorize": 1, "exchange": 2}[c["at"]]
+    outs = []
+    for i, op in enumerate(ops):
+        if i == idx:
+            real, n = getattr(w.cache, c["method"]), [0]
+
+            def failing(*a, **k):
+                n[0] += 1
+                if n[0] - 1 == c["nth"]:
+                    raise ms.Fault(f"injected cache.{c['method']} failure")
+                return real(*a, **k)
+            setattr(w.cache, c["method"], failing)
+            try:
+                o = w._step(op)
+            finally:
+                setattr(w.cache, c["method"], real)
+            outs.append(dict(o, calls=n[0]))
+            if "raised" in o or n[0] > c["nth"]:
+                # the fault hit (surfaced or not): repeat the request fault-free, re-signed
+                op2 = dict(op, nonce=op["nonce"] + "r") if "nonce" in op else dict(op)
+                outs.append(dict(w._step(op2), retry=True))
+        else:
+            outs.append(w._step(op))
+    return {"outs": outs}
+
+
 def impl_framework(c):
     import memserver as ms
     from memserver import Req, Client
@@ -172,7 +210,7 @@ def impl_assertion(c):
 
 
 def cases(rng, tier):
-    out = scenario_cases(pairs=True) + assertion_cases() + framework_cases()
+    out = scenario_cases(pairs=True) + assertion_cases() + framework_cases() + flask1_cases()
     n, ln = (60, 12) if tier == "quick" else (1500, 28)
     for i in range(n):
         h = H.gen_history(rng, ln, "code" if i % 2 else "token", pkce_required=(i % 5 == 0), fault_p=0.35)
@@ -183,6 +221,8 @@ def cases(rng, tier):
 
 
 def impl(c):
+    if c["world"] == "flask1":
+        return impl_flask1(c)
     if c["world"] == "framework":
         return impl_framework(c)
     if c["world"] == "assertion":
@@ -205,7 +245,7 @@ def impl(c):
 
 
 def model_line(c):
-    if c["world"] in ("assertion", "framework"):
+    if c["world"] in ("assertion", "framework", "flask1"):
         return None
     if c["world"] == "oidc" or any(op["op"] == "implicit" for op in c["ops"]):
         return None
@@ -213,7 +253,7 @@ def model_line(c):
 
 
 def project(c, out):
-    if c["world"] in ("assertion", "framework"):
+    if c["world"] in ("assertion", "framework", "flask1"):
         return out
     outs = []
     for o in out["outs"]:
@@ -252,6 +292,13 @@ def oracle(c, out):
     v = []
     def bad(what, **sig):
         v.append((what, dict(sig, world=c["world"])))
+    if c["world"] == "flask1":
+        idx = {"initiate": 0, "authorize": 1, "exchange": 2}[c["at"]]
+        hit = out["outs"][idx] if len(out["outs"]) > idx else None
+        if hit is not None and hit.get("calls", 0) > c["nth"] and "raised" not in hit:
+            bad(f"[flask OAuth 1 cache hooks] cache.{c['method']} call #{c['nth'] + 1} failed during the {c['at']} request: the failure did not surface, the caller was answered {hit}",
+                kind="fault-swallowed", op=c["at"], fw="flask1")
+        return v
     if c["world"] == "framework":
         if out["callbacks"][:1] != ["query_client"]:
             bad(f"[{c['fw']}] {c['ep']} request: the first storage callback is {out['callbacks'][:1]}, expected the client lookup", kind="trace-changed", op=c["ep"])
@@ -325,6 +372,8 @@ def oracle(c, out):
 
 
 def classify(c, out):
+    if c["world"] == "flask1":
+        return f"flask1/{c['at']}/{c['method']}"
     if c["world"] == "framework":
         return f"framework/{c['fw']}/{c['ep']}"
     if c["world"] == "assertion":
@@ -336,6 +385,8 @@ def classify(c, out):
 
 
 def nontrivial(c, out):
+    if c["world"] == "flask1":
+        return [c["at"], c["method"], c["nth"]]
     if c["world"] == "framework":
         return [c["fw"], c["ep"], c["fault_type"]]
     if c["world"] == "assertion":
